@@ -50,6 +50,26 @@ CLAIMED["C01"] = dict(
     note=TB + " The float comparison cost <= L*rate is modelled as cost <= thr[L] with thr[L] = int(L*rate) computed in CPython by the code's own expression.",
 )
 
+CLAIMED["C02"] = dict(
+    text="Theorems (coq/Properties/C02.v): for the comparers (anchored adapters, indels disabled) every occurrence at the anchored end within the Hamming tolerance is reported with exactly its "
+    "distance, an error-free one is removed exactly, and no prefilter intervenes. PARTIAL: completeness of the banded DP (regular/non-internal/anywhere adapters, anchored with indels, "
+    "the three cut-position clauses) is not a theorem; it rests on the correspondence (model match_to_prefiltered = implementation match_to for all eight classes) and on oracle_C02 "
+    "(planted admissible occurrences verified by textbook distance, exhaustive enumeration of admissible interval quadruples in small scope, leftmost/rightmost exact-copy cut clauses) run against the implementation.",
+    technique="Coq proof (comparers) + extracted-model differential correspondence of prefiltered match_to; brute-force oracle search on the implementation",
+    design="6/C02",
+    note=TB + " thr[L] = int(L*rate) computed in CPython. Two genuine defects found by this check were repaired in /repo (fix: commits 68eb3cf, 579ddcc; see known_findings.json).",
+)
+CLAIMED["C07"] = dict(
+    text="Theorems (coq/Properties/C07.v) on the model of kmer_heuristic.py + KmerFinder.kmers_present (window arithmetic + windowed multi-pattern occurrence) + the finder each adapter class builds: "
+    "the prefilter can only reject, so the property is equivalent to 'reported match implies prefilter passes'; comparers bypass it; the k-mer chunks partition the adapter prefix into max_errors+1 pieces; "
+    "short reads always reach the aligner of an anywhere adapter. PARTIAL: completeness of the search tables (pigeonhole over edit scripts) is not a theorem; it rests on the correspondence "
+    "(search tables as sets, kmers_present, prefiltered match_to: model = implementation) and on the with/without-prefilter oracle run on the implementation (random + exhaustive small scope).",
+    technique="Coq proof (structural lemmas) + extracted-model differential correspondence (tables, kmers_present, match_to) + real-vs-mock-finder oracle on the implementation",
+    design="6/C07",
+    note=TB + " The shift-and bit machinery of _kmer_finder.pyx below 'windowed multi-pattern occurrence' is not modelled; windows extending past the read end (out-of-bounds read in the compiled code, "
+    "can only turn no into yes) are clamped in the model and excluded from the kmers_present comparison. Two genuine defects were repaired in /repo (fix: commits 68eb3cf, 579ddcc).",
+)
+
 NOT_YET = {}
 
 
